@@ -24,7 +24,7 @@ func init() {
 }
 
 var c14Parents = []string{"projects/p/instances/i1", "projects/p/instances/i2", "projects/p/instances/i10"} // i1 is a string prefix of i10
-var c14IDs = []string{"t", "t2", "u", "t.v2", "t.deleted", "t.table.proto"}                                                               // "t.v2": the id of another table plus a dot and a suffix (file names on disk are derived from ids)
+var c14IDs = []string{"t", "t2", "u", "t.v2", "t.deleted", "t.table.proto"}                                 // "t.v2": the id of another table plus a dot and a suffix (file names on disk are derived from ids)
 var c14Prefixes = []string{"a", "a\x00", "ab", "a\xff", "\xff", "zz", "b", "\x00", "a\x00\x00"}
 var c14Fams = []string{"f1", "f2", "g"}
 
